@@ -17,7 +17,7 @@ EXPLANATION = (
 MANIFEST = {
     "engine": "mirfacts+witness",
     "technique": "static analysis: MIR rules on the where-clause generator + compile / compile_fail type-check witnesses with twins (rustc decides, nothing runs)",
-    "level_note": "The witness part is a finite corpus (17 programs quick, +21 ui programs thorough); programs outside it are covered only by the structural rules. Trusted: rustc.",
+    "level_note": "The witness part is a finite corpus (21 programs quick, +21 ui programs thorough); programs outside it are covered only by the structural rules, which are cross-checks: where a rule does not recognise the shape of the derive's code it abstains (listed in the evidence) and the witnesses decide. Trusted: rustc.",
 }
 T = cd.D + "trait_bounds::"
 
